@@ -28,11 +28,12 @@ import (
 	"testing"
 	"time"
 
-	"github.com/IrineSistiana/mosproxy/internal/upstream"
+	"github.com/IrineSistiana/mosproxy/internal/mlog"
 	"github.com/IrineSistiana/mosproxy/internal/zzverif/env"
 	"github.com/IrineSistiana/mosproxy/internal/zzverif/refdns"
 	"github.com/IrineSistiana/mosproxy/internal/zzverif/report"
 	"github.com/quic-go/quic-go"
+	"github.com/rs/zerolog"
 )
 
 type c17CA struct {
@@ -105,12 +106,48 @@ func c17Answer(wire []byte) []byte {
 	return env.Answer(m, 7, 60).Encode(false)
 }
 
+// c17FreeAddr returns a loopback address that was free a moment ago (the servers are started from configuration, by address).
+func c17FreeAddr(udp bool) string {
+	if udp {
+		c, err := net.ListenPacket("udp", "127.0.0.1:0")
+		if err != nil {
+			panic(err)
+		}
+		defer c.Close()
+		return c.LocalAddr().String()
+	}
+	l, err := net.Listen("tcp", "127.0.0.1:0")
+	if err != nil {
+		panic(err)
+	}
+	defer l.Close()
+	return l.Addr().String()
+}
+
+// c17Run starts a router from configuration (retrying when a port picked by c17FreeAddr was taken meanwhile).
+func c17Run(mk func() *Config) (*router, *Config, error) {
+	var err error
+	for try := 0; try < 3; try++ {
+		cfg := mk()
+		var r *router
+		r, err = run(context.Background(), cfg)
+		if err == nil {
+			return r, cfg, nil
+		}
+	}
+	return nil, nil, err
+}
+
 func TestVerifC17TLS(t *testing.T) {
+	mlog.SetLvl(zerolog.Disabled)
 	rep := report.New("C17 TLS authentication")
 	defer rep.Write()
-	rep.Rule = "E1 full matrix with real crypto/tls on loopback: (upstream) kind {tls, https} x URL host {dot.example, 1.2.3.4, [::1], [2001:db8::53]} (dialled via dial_addr to a local server) x server certificate {valid for all hosts, wrong name, unknown CA, expired, self-signed} x options {ca configured, no ca, insecure_skip_verify} built by the real makeTlsConfig; " +
-		"oracle: exchange succeeds iff verification is disabled or (ca configured and certificate valid); SNI equals the URL host for names (none for IP literals) and the HTTP Host header equals the URL host; " +
-		"(listener) kind {tls, https, quic} started by the real start*Server with cert/key/ca files x verify_client_cert {off, on with ca, on without ca (system roots)} x client certificate {none, signed by the configured CA, signed by another CA, expired}; oracle: with verification on a query is answered only for the certificate chaining to the configured CA"
+	rep.Rule = "E1 full matrix with real crypto/tls on loopback, built with the repository's own Go toolchain, every router started from configuration by run(): " +
+		"(upstream) kind {tls, https} x URL host {dot.example, 1.2.3.4, [::1], [2001:db8::53]} (dialled via dial_addr to a local server) x server certificate {valid for all hosts, wrong name, unknown CA, expired, self-signed} x " +
+		"tls options in the order {ca configured, another ca configured, no ca, ca again, insecure_skip_verify, another ca again} against the same server instance and name (earlier upstreams leave their traces in the process: session tickets, caches); " +
+		"oracle: exchange succeeds iff verification is disabled or the certificate is valid for the host and chains to the configured ca; SNI equals the URL host for names (none for IP literals) and the HTTP Host header equals the URL host; " +
+		"(listener) one router with, per kind {tls, https, quic}, a listener that verifies client certificates and one that does not, sharing the same cert/key/ca files, in every start order {verifying first, non-verifying first, an upstream using the same files for mutual TLS first}, " +
+		"and verification on without a ca (system roots) x client certificate {none, signed by the configured CA, signed by another CA, expired}; oracle: a verifying listener answers a query only for the certificate chaining to the configured CA, a non-verifying one answers everybody"
 	if sh, _ := report.Shard(); sh != 0 {
 		rep.Eval("idle-shard")
 		rep.Eval("idle-shard2")
@@ -124,6 +161,8 @@ func TestVerifC17TLS(t *testing.T) {
 	ca, other := c17NewCA("verif CA"), c17NewCA("other CA")
 	caFile := filepath.Join(dir, "ca.pem")
 	os.WriteFile(caFile, ca.pem, 0o644)
+	otherCAFile := filepath.Join(dir, "other_ca.pem")
+	os.WriteFile(otherCAFile, other.pem, 0o644)
 	allDNS := []string{"dot.example", "localhost", "test.test"}
 	allIPs := []net.IP{net.ParseIP("1.2.3.4"), net.ParseIP("::1"), net.ParseIP("2001:db8::53"), net.ParseIP("127.0.0.1")}
 	type certKind struct {
@@ -191,7 +230,10 @@ func TestVerifC17TLS(t *testing.T) {
 	for _, kind := range []string{"tls", "https"} {
 		for _, h := range hosts {
 			for _, ck := range kinds {
-				for _, opt := range []string{"ca", "no-ca", "insecure"} {
+				// the order matters: an upstream with the trusting CA talks to the server (same name, same server instance) before the
+				// ones that must reject it, so that anything the first one leaves behind in the process (session tickets, cached
+				// configurations or connections) is there to be misused
+				for oi, opt := range []string{"ca", "other-ca", "no-ca", "ca", "insecure", "other-ca"} {
 					srv.mu.Lock()
 					srv.cert, srv.sni, srv.host = ck.cert, nil, nil
 					srv.mu.Unlock()
@@ -199,33 +241,33 @@ func TestVerifC17TLS(t *testing.T) {
 					switch opt {
 					case "ca":
 						tc.CA = caFile
+					case "other-ca":
+						tc.CA = otherCAFile
 					case "insecure":
 						tc.InsecureSkipVerify = true
 					}
-					cfg, err := makeTlsConfig(&tc, false)
-					desc := fmt.Sprintf("%s://%s server-cert=%s options=%s", kind, h.url, ck.name, opt)
+					desc := fmt.Sprintf("%s://%s server-cert=%s options#%d=%s", kind, h.url, ck.name, oi, opt)
 					rep.Eval(desc)
-					if err != nil {
-						rep.Violate("C17:tls:config", err.Error()+" "+desc, nil)
-						continue
-					}
 					l := dotL
 					addr := "tls://" + h.url
 					if kind == "https" {
 						l = dohL
 						addr = "https://" + h.url + "/dns-query"
 					}
-					u, err := upstream.NewUpstream(addr, upstream.Opt{DialAddr: l.Addr().String(), TLSConfig: cfg})
+					r, err := run(context.Background(), &Config{
+						Upstreams: []UpstreamConfig{{Tag: "u", Addr: addr, DialAddr: l.Addr().String(), Tls: tc}},
+						Rules:     []RuleConfig{{Forward: "u"}},
+					})
 					if err != nil {
-						rep.Violate("C17:tls:new-upstream", err.Error()+" "+desc, nil)
+						rep.Violate("C17:tls:router-start", err.Error()+" "+desc, nil)
 						continue
 					}
 					ctx, cancel := context.WithTimeout(context.Background(), 5*time.Second)
-					m, xerr := u.ExchangeContext(ctx, query)
+					m, xerr := r.upstreams["u"].u.ExchangeContext(ctx, query)
 					cancel()
-					u.Close()
+					r.close(nil)
 					ok := m != nil && xerr == nil
-					want := opt == "insecure" || (opt == "ca" && ck.valid)
+					want := opt == "insecure" || (opt == "ca" && ck.valid) || (opt == "other-ca" && ck.name == "unknown-ca")
 					if ok != want {
 						sig := "accepted-bad-peer"
 						if want {
@@ -269,112 +311,127 @@ func TestVerifC17TLS(t *testing.T) {
 		{"signed-by-other-ca", func() *tls.Certificate { c, _, _ := other.issue("client", nil, nil, false, true); return &c }(), false},
 		{"expired", func() *tls.Certificate { c, _, _ := ca.issue("client", nil, nil, true, true); return &c }(), false},
 	}
-	for _, mode := range []string{"verify-off", "verify-on+ca", "verify-on-no-ca"} {
-		verify := mode != "verify-off"
-		cfgR := c03Config("forward")
-		v, err := vNewRouter(cfgR, "u1")
+	type lst struct {
+		kind, addr string
+		verify     bool
+		withCA     bool
+	}
+	for _, order := range []string{"verifying-first", "non-verifying-first", "mutual-tls-upstream-first", "verifying-without-ca"} {
+		var ls []lst
+		r, _, err := c17Run(func() *Config {
+			ls = nil
+			cfg := &Config{Rules: []RuleConfig{{Reject: 3}}}
+			add := func(kind string, verify, withCA bool) {
+				tc := TlsConfig{Cert: certFile, Key: keyFile, VerifyClientCert: verify}
+				if withCA {
+					tc.CA = caFile
+				}
+				a := c17FreeAddr(kind == "quic")
+				ls = append(ls, lst{kind, a, verify, withCA})
+				cfg.Servers = append(cfg.Servers, ServerConfig{Tag: fmt.Sprintf("%s-%d", kind, len(ls)), Protocol: kind, Listen: a, Tls: tc})
+			}
+			for _, kind := range []string{"tls", "https", "quic"} {
+				switch order {
+				case "verifying-first":
+					add(kind, true, true)
+					add(kind, false, true)
+				case "non-verifying-first":
+					add(kind, false, true)
+					add(kind, true, true)
+				case "mutual-tls-upstream-first":
+					add(kind, true, true)
+				case "verifying-without-ca":
+					add(kind, true, false) // system roots: none of the harness-minted client certificates chains to them
+				}
+			}
+			if order == "mutual-tls-upstream-first" {
+				// upstreams are initialised before the listeners: this one presents the node's certificate (same files) to its server
+				cfg.Upstreams = []UpstreamConfig{{Tag: "m", Addr: "tls://localhost", DialAddr: "127.0.0.1:1", Tls: TlsConfig{Cert: certFile, Key: keyFile, CA: caFile}}}
+			}
+			return cfg
+		})
 		if err != nil {
-			t.Fatal(err)
-		}
-		v.ups["u1"].Auto = func(q *upQuery) *upResult { return &upResult{wire: env.Answer(q.Msg, 1, 60).Encode(false)} }
-		tlsCfg := TlsConfig{Cert: certFile, Key: keyFile, CA: caFile, VerifyClientCert: verify}
-		if mode == "verify-on-no-ca" {
-			tlsCfg.CA = "" // system roots: none of the harness-minted client certificates chains to them
-		}
-		tcpS, err1 := v.r.startTcpServer(&ServerConfig{Protocol: "tls", Listen: "127.0.0.1:0", Tls: tlsCfg}, true)
-		httpS, err2 := v.r.startHttpServer(&ServerConfig{Protocol: "https", Listen: "127.0.0.1:0", Tls: tlsCfg}, true)
-		quicS, err3 := v.r.startQuicServer(&ServerConfig{Protocol: "quic", Listen: "127.0.0.1:0", Tls: tlsCfg})
-		if err1 != nil || err2 != nil {
-			rep.Violate("C17:listener:start", fmt.Sprint(err1, err2), nil)
-			v.r.close(nil)
+			rep.Violate("C17:listener:start", fmt.Sprintf("%s: %v", order, err), nil)
 			continue
 		}
-		for _, cc := range clientCerts {
-			ccfg := &tls.Config{RootCAs: x509.NewCertPool(), ServerName: "localhost"}
-			ccfg.RootCAs.AddCert(ca.cert)
-			if cc.cert != nil {
-				ccfg.Certificates = []tls.Certificate{*cc.cert}
-			}
-			want := !verify || (cc.good && mode == "verify-on+ca")
-			judge := func(kind string, served bool, detail string) {
-				desc := fmt.Sprintf("listener=%s %s client-cert=%s", kind, mode, cc.name)
+		for _, l := range ls {
+			for _, cc := range clientCerts {
+				ccfg := &tls.Config{RootCAs: x509.NewCertPool(), ServerName: "localhost"}
+				ccfg.RootCAs.AddCert(ca.cert)
+				if cc.cert != nil {
+					ccfg.Certificates = []tls.Certificate{*cc.cert}
+				}
+				want := !l.verify || (cc.good && l.withCA)
+				desc := fmt.Sprintf("start-order=%s listener=%s verify_client_cert=%v ca=%v client-cert=%s", order, l.kind, l.verify, l.withCA, cc.name)
 				rep.Eval(desc)
+				served, detail := c17Ask(l.kind, l.addr, ccfg, query)
 				if served && !want {
-					rep.Violate(fmt.Sprintf("C17:listener:served-unauthenticated-client:%s:cert=%s", kind, cc.name), "a query was served to a client without an acceptable certificate: "+desc, nil)
+					rep.Violate(fmt.Sprintf("C17:listener:served-unauthenticated-client:%s:cert=%s", l.kind, cc.name), "a query was served to a client without an acceptable certificate: "+desc, nil)
 				}
 				if !served && want {
-					rep.Violate(fmt.Sprintf("C17:listener:refused-acceptable-client:%s:cert=%s", kind, cc.name), "query not served ("+detail+"): "+desc, nil)
+					rep.Violate(fmt.Sprintf("C17:listener:refused-acceptable-client:%s:cert=%s", l.kind, cc.name), "query not served ("+detail+"): "+desc, nil)
 				}
 			}
-			// DoT
-			func() {
-				c, err := tls.DialWithDialer(&net.Dialer{Timeout: 3 * time.Second}, "tcp", tcpS.l.Addr().String(), ccfg)
-				if err != nil {
-					judge("tls", false, err.Error())
-					return
-				}
-				defer c.Close()
-				c.SetDeadline(time.Now().Add(5 * time.Second))
-				c.Write(refdns.Frame(query))
-				hdr := make([]byte, 2)
-				if _, err := io.ReadFull(c, hdr); err != nil {
-					judge("tls", false, err.Error())
-					return
-				}
-				judge("tls", true, "")
-			}()
-			// DoH
-			func() {
-				tr := &http.Transport{TLSClientConfig: ccfg.Clone(), ForceAttemptHTTP2: true}
-				defer tr.CloseIdleConnections()
-				hc := &http.Client{Transport: tr, Timeout: 5 * time.Second}
-				req, _ := http.NewRequest("POST", "https://"+httpS.Handler.(*httpHandler).localAddr.String()+"/dns-query", bytes.NewReader(query))
-				req.Header.Set("Content-Type", "application/dns-message")
-				resp, err := hc.Do(req)
-				if err != nil {
-					judge("https", false, err.Error())
-					return
-				}
-				defer resp.Body.Close()
-				b, _ := io.ReadAll(resp.Body)
-				_, derr := refdns.Decode(b)
-				judge("https", resp.StatusCode == 200 && derr == nil, fmt.Sprint(resp.StatusCode))
-			}()
-			// DoQ
-			if err3 == nil {
-				func() {
-					qc := ccfg.Clone()
-					qc.NextProtos = []string{"doq"}
-					ctx, cancel := context.WithTimeout(context.Background(), 5*time.Second)
-					defer cancel()
-					conn, err := quic.DialAddr(ctx, quicS.l.Addr().String(), qc, &quic.Config{})
-					if err != nil {
-						judge("quic", false, err.Error())
-						return
-					}
-					defer conn.CloseWithError(0, "")
-					st, err := conn.OpenStreamSync(ctx)
-					if err != nil {
-						judge("quic", false, err.Error())
-						return
-					}
-					st.SetDeadline(time.Now().Add(5 * time.Second))
-					q0 := append([]byte(nil), query...)
-					q0[0], q0[1] = 0, 0
-					st.Write(refdns.Frame(q0))
-					st.Close()
-					b, _ := io.ReadAll(st)
-					fs, _ := env.SplitFrames(b)
-					judge("quic", len(fs) == 1, fmt.Sprintf("%d frames", len(fs)))
-				}()
-			}
 		}
-		if err3 == nil {
-			quicS.Close()
-		}
-		v.r.close(nil)
+		r.close(nil)
+		time.Sleep(200 * time.Millisecond)
 	}
 	rep.Sample(map[string]any{"upstream": "tls://[2001:db8::53] server-cert=valid options=ca", "expect": "success, no SNI, certificate verified for the IP"})
+}
+
+// c17Ask sends one query to a listener with the given client TLS configuration; served = a DNS response came back.
+func c17Ask(kind, addr string, ccfg *tls.Config, query []byte) (served bool, detail string) {
+	switch kind {
+	case "tls":
+		c, err := tls.DialWithDialer(&net.Dialer{Timeout: 3 * time.Second}, "tcp", addr, ccfg)
+		if err != nil {
+			return false, err.Error()
+		}
+		defer c.Close()
+		c.SetDeadline(time.Now().Add(5 * time.Second))
+		c.Write(refdns.Frame(query))
+		hdr := make([]byte, 2)
+		if _, err := io.ReadFull(c, hdr); err != nil {
+			return false, err.Error()
+		}
+		return true, ""
+	case "https":
+		tr := &http.Transport{TLSClientConfig: ccfg.Clone(), ForceAttemptHTTP2: true}
+		defer tr.CloseIdleConnections()
+		hc := &http.Client{Transport: tr, Timeout: 5 * time.Second}
+		req, _ := http.NewRequest("POST", "https://"+addr+"/dns-query", bytes.NewReader(query))
+		req.Header.Set("Content-Type", "application/dns-message")
+		resp, err := hc.Do(req)
+		if err != nil {
+			return false, err.Error()
+		}
+		defer resp.Body.Close()
+		b, _ := io.ReadAll(resp.Body)
+		_, derr := refdns.Decode(b)
+		return resp.StatusCode == 200 && derr == nil, fmt.Sprint(resp.StatusCode)
+	default:
+		qc := ccfg.Clone()
+		qc.NextProtos = []string{"doq"}
+		ctx, cancel := context.WithTimeout(context.Background(), 5*time.Second)
+		defer cancel()
+		conn, err := quic.DialAddr(ctx, addr, qc, &quic.Config{})
+		if err != nil {
+			return false, err.Error()
+		}
+		defer conn.CloseWithError(0, "")
+		st, err := conn.OpenStreamSync(ctx)
+		if err != nil {
+			return false, err.Error()
+		}
+		st.SetDeadline(time.Now().Add(5 * time.Second))
+		q0 := append([]byte(nil), query...)
+		q0[0], q0[1] = 0, 0
+		st.Write(refdns.Frame(q0))
+		st.Close()
+		b, _ := io.ReadAll(st)
+		fs, _ := env.SplitFrames(b)
+		return len(fs) == 1, fmt.Sprintf("%d frames", len(fs))
+	}
 }
 
 func decodeB64(dst []byte, s string) (int, error) {
